@@ -74,9 +74,6 @@ impl Core {
             AcctSpec::new(key_from(2), Pubkey::new_from_array([0; 32])).writable(true).lamports(1),
         ])
     }
-    pub fn info(&self) -> AccountInfo {
-        *self.world.info(0)
-    }
     pub fn owner(&self) -> [u8; 32] {
         *self.world.info(0).owner()
     }
@@ -85,9 +82,6 @@ impl Core {
     }
     pub fn data(&self) -> Vec<u8> {
         self.world.raw_data(0)
-    }
-    pub fn w(&self) -> usize {
-        self.disc.len()
     }
     fn release(&mut self) {
         self.shared.clear();
@@ -326,8 +320,6 @@ impl<T: BType> Sess for BorshSess<T> {
 }
 
 // ------------------------------------------------------------------------------------ the table
-type Ctor = fn(Core) -> Box<dyn Sess>;
-
 fn zc<Z: ZcType>(pid: &'static Pubkey) -> impl Fn(Core) -> Box<dyn Sess>
 where
     Z::Ptr: Deref<Target = Z>,
@@ -384,7 +376,6 @@ pub fn table() -> Vec<TypeEntry> {
         disc: <ZcFF as ProgramAccount>::discriminant_bytes(),
         ctor: Box::new(zc::<ZcFF>(&p1::PID)),
     });
-    let _: Option<Ctor> = None;
     v
 }
 
